@@ -1,15 +1,40 @@
 PROPS['C15'] = dict(
     level='exploration',
-    technique='rapidcheck generation of symmetric matrices (nine structural classes) x search-space sizes x rules x tolerances x default / user-supplied initial spaces; long double residual, Gram and ordering oracles; finiteness under every outcome',
-    level_text='TODO',
-    level_note='TODO',
+    technique='rapidcheck generation of symmetric matrices (nine structural classes incl. decoupled coordinates, block diagonal, small-integer, tridiagonal) x '
+              'search-space sizes (constructor forms and setters) x 4 rules x tolerances x default / user-supplied initial spaces; long double residual, Gram, '
+              'ordering and count oracles under Successful, finiteness under every outcome',
+    level_text='Random search with shrinking over DavidsonSymEigsSolver<{float,double,long double}> on the dense and the sparse product wrapper x nine matrix classes '
+               '(diagonally dominant dense/sparse, generic, prescribed spectrum with ties / null space / cluster, block diagonal with 1x1 blocks, 1-3 exactly decoupled '
+               'coordinates whose diagonal value is extreme / zero / a copy of another entry, small integers, tridiagonal, diagonal, dominant with tied diagonal) x scale 1e-4..1e4 x '
+               'nev <= 8 x (initial, correction, maximal) sizes reached through (op,nev), (op,nev,nvec_init,nvec_max) or the three setters, with nev <= initial, correction <= initial, '
+               'initial + correction <= n, initial <= max (max above n through the setter included) x LargestAlge/SmallestAlge/LargestMagn/SmallestMagn x tol from 8 eps to 1 and the '
+               'default x maxit 1..40/100/1000 x initial space: default, unit vectors (also on the decoupled coordinates), random orthonormal, containing exact eigenvectors, and '
+               'non-orthonormal ones (random, unit columns that are not orthogonal, scaled columns, a zero / repeated / dependent column, orthonormal + perturbation 1e-2..1e-9) with '
+               'any admissible number of columns; optionally a second compute on the same object. After every compute: all returned numbers finite; if info()==Successful then '
+               'compute()==nev, ||A x - theta x|| < tol + 64 n eps ||A||_F with A applied in long double, | ||x|| - 1 | <= 64 n eps, max|X\'X - I| <= 64 n eps, values ordered by the rule. '
+               'An Eigen assertion inside the solver is a violation. Sampling, not a proof; the class histogram in evidence shows what was reached.',
+    level_note='The operator handed to the solver is the library wrapper sub-classed to record product requests (size of the space, restarts, first non-finite basis vector) and the solver is '
+               'sub-classed to read the protected search space after compute(); both records only classify cases and key the known-finding signatures, never a verdict. '
+               'Sizes the constructor fallback (n/3) pushes outside the quantifier (initial < nev) are counted as rejected. maxit = 0 is not generated. '
+               'While KF-C15-5 is open, a change that damages the orthogonalisation of new directions is indistinguishable from it (same signature: final basis not orthonormal).',
     units=real_units('c15', 'c15_davidson.cpp'),
     runs=dict(
         quick=[dict(unit='c15_d', cases=3000, workers=2), dict(unit='c15_f', cases=3000, workers=1), dict(unit='c15_l', cases=3000, workers=1)],
-        thorough=[dict(unit='c15_d', cases=40000, workers=8, set=dict(nmax=60)), dict(unit='c15_f', cases=40000, workers=4, set=dict(nmax=60)), dict(unit='c15_l', cases=40000, workers=4, set=dict(nmax=60))],
+        thorough=[dict(unit='c15_d', cases=40000, workers=8, set=dict(nmax=60)), dict(unit='c15_f', cases=40000, workers=4, set=dict(nmax=60)),
+                  dict(unit='c15_l', cases=25000, workers=4, set=dict(nmax=60))],
     ),
-    min=dict(quick=dict(cases=10000, nontrivial=4000), thorough=dict(cases=500000, nontrivial=200000)),
-    rule='TODO',
-    tolerances='TODO',
-    assumptions=SOLVER_ASSUME,
+    min=dict(quick=dict(cases=10000, nontrivial=5000, classes={'info/Successful': 2500, 'info/NotConverging': 1500, 'restarted': 1500, 'Successful/after_restart': 200,
+                                                                 'Successful/user_space_orthonormal': 800, 'user_space/unit_columns_not_orthogonal': 800,
+                                                                 'user_space/columns_not_normalized': 800, 'matrix_with_decoupled_coordinate': 1500,
+                                                                 'initial_space/with_exact_eigenvectors': 300, 'wrapper/sparse': 2000, 'search_space_reached_n': 500,
+                                                                 'class/block_diagonal': 400, 'class/decoupled_coordinates': 400, 'initial_size_1': 300,
+                                                                 'max_size_above_n_via_setter': 300, 'two_computes_on_one_object': 500}),
+             thorough=dict(cases=500000, nontrivial=250000)),
+    rule='case = (matrix class, n in [2,40] (thorough 60), content seed / drawn structure, scale, size form and sizes, wrapper, then per compute: rule, maxit, tol, initial-space kind, '
+         'its number of columns and content seed). Non-trivial = the search space was restarted at least once or the initial space was supplied by the caller; '
+         'distinct = 64-bit hash of the draw log.',
+    tolerances='Successful: ||A x - theta x|| < tol + 64 n eps ||A||_F (tol as rounded to the scalar type; observed rounding excess <= 0.04 n eps ||A||); | ||x||-1 | <= 64 n eps and '
+               'max|X\'X - I| <= 64 n eps (observed <= 16 resp. 31 n eps for orthonormal initial spaces); ordering and counts exact; finiteness exact',
+    assumptions=['long double residuals / Gram matrices formed from the matrix as rounded to the scalar type',
+                 'Eigen SelfAdjointEigenSolver<long double> only to build user spaces that contain exact eigenvectors (generator, not oracle)'],
 )
